@@ -36,6 +36,8 @@ def parts(cfg, ps, gcc=True, flavour="include", std="gnu++17"):
 QUICK = {
     "C04": lambda: parts("all", (2, 3), True) + parts("all", (3,), False),
     "C09": lambda: parts("all", (2, 3), True) + parts("all", (3,), False),
+    # logging: verbose mode (all) on both dispatch paths + interface-only mode (all-li), where S_::log overloads decide
+    "C16": lambda: zoo(["all"], gcc=(True,)) + parts("all-li", (1, 2, 4), True) + parts("all", (2,), False),
 }
 
 
